@@ -196,6 +196,7 @@ type Exec struct {
 	writerRemoved map[string]bool // owner|topic|writer removed at least once (probe)
 	maxTxID      int
 	inEpilogue   bool
+	touchedByFailed map[string]bool // entities named by messages of a failed multi-message transaction
 	KeepApps     bool
 	OnCommit     func(h int64) // race sub-check: called on the block goroutine after every Commit of the reference replica
 }
@@ -1212,6 +1213,18 @@ func (e *Exec) judgeTx(p *pendingTx, bt *BuiltTx, pred *prediction, accepted boo
 		first = all[0]
 	}
 	ent := fmt.Sprintf("tx%d", p.ID)
+	if !accepted {
+		if all, _ := flattenMsgs(bt.Msgs); len(all) > 1 {
+			if e.touchedByFailed == nil {
+				e.touchedByFailed = map[string]bool{}
+			}
+			for _, m := range all {
+				if en := entityOf(m); en != "" {
+					e.touchedByFailed[en] = true
+				}
+			}
+		}
+	}
 	if first != nil && pred.HasCustom {
 		k := "judged." + moduleOf(first)
 		if accepted {
@@ -1281,6 +1294,10 @@ func (e *Exec) judgeTx(p *pendingTx, bt *BuiltTx, pred *prediction, accepted boo
 			prop := rejectPropOf(pred.FailMsg, pred.HandlerWhy)
 			if e.isResubmission(p) {
 				prop = "C04"
+			}
+			if e.Prop == "C15" && e.touchedByFailed[entityOf(pred.FailMsg)] {
+				// the request is only acceptable if a message of an earlier FAILED transaction had taken effect
+				prop = "C15"
 			}
 			e.viol(prop, "handler.accepted_forbidden."+moduleOf(pred.FailMsg), entityOf(pred.FailMsg), "tx %s was accepted; the statements require refusal (%s): %s", desc, pred.HandlerWhy, msgJSON(e.Env, pred.FailMsg))
 			e.resync(r0.DeliverStores())
